@@ -17,6 +17,33 @@ pub use ::std::*;
 pub mod thread {
     pub use shuttle::thread::*;
 
+    ::std::thread_local! {
+        static SPAWN_FAIL_AT: ::std::cell::Cell<Option<usize>> = const { ::std::cell::Cell::new(None) };
+        static SPAWN_COUNT: ::std::cell::Cell<usize> = const { ::std::cell::Cell::new(0) };
+        static SPAWN_REFUSED: ::std::cell::Cell<usize> = const { ::std::cell::Cell::new(0) };
+    }
+
+    /// Fault injection: from now on the `n`-th (0-based) and every later `Builder::spawn` /
+    /// `Builder::spawn_scoped` on this OS thread is refused with EAGAIN (None = never). Resets the counters.
+    pub fn refuse_spawns_from( n: Option<usize> ) {
+        SPAWN_FAIL_AT.with(|c| c.set( n ));
+        SPAWN_COUNT.with(|c| c.set( 0 ));
+        SPAWN_REFUSED.with(|c| c.set( 0 ));
+    }
+
+    /// How many spawns were refused since `refuse_spawns_from`.
+    pub fn spawns_refused() -> usize {
+        SPAWN_REFUSED.with(|c| c.get())
+    }
+
+    fn refuse_this_spawn() -> bool {
+        let k = SPAWN_COUNT.with(|c| { let k = c.get(); c.set( k + 1 ); k });
+        match SPAWN_FAIL_AT.with(|c| c.get()) {
+            Some( n ) if k >= n => { SPAWN_REFUSED.with(|c| c.set( c.get() + 1 )); true },
+            _ => false,
+        }
+    }
+
     /// `std::thread::Builder` over the seam (adds `spawn_scoped`, which shuttle's builder lacks;
     /// name and stack size are accepted and ignored for scoped tasks).
     #[derive(Debug, Default)]
@@ -42,6 +69,9 @@ pub mod thread {
             F: FnOnce() -> T + Send + 'static,
             T: Send + 'static,
         {
+            if refuse_this_spawn() {
+                return Err( ::std::io::Error::from_raw_os_error( 11 ) ); // EAGAIN
+            }
             let mut b = shuttle::thread::Builder::new();
             if let Some( n ) = self.name { b = b.name( n ); }
             if let Some( s ) = self.stack_size { b = b.stack_size( s ); }
@@ -53,6 +83,9 @@ pub mod thread {
             F: FnOnce() -> T + Send + 'scope,
             T: Send + 'scope,
         {
+            if refuse_this_spawn() {
+                return Err( ::std::io::Error::from_raw_os_error( 11 ) ); // EAGAIN
+            }
             Ok( scope.spawn( f ) )
         }
     }
